@@ -641,7 +641,8 @@ func (c *ctx) engineCase(a, b Schema, desc string, o engineOpts) {
 }
 
 // genToPlain: a generated column of a that is an ordinary column in b -- the rebuild copies the computed values,
-// which the engine model (rows hold stored columns only) does not evaluate: no populated model case for such pairs
+// which the engine model (rows hold stored columns only) does not evaluate -- or a column whose type differs:
+// no populated model case for such pairs
 func genToPlain(a, b Schema) bool {
 	for _, t := range a.Tables {
 		bt := b.table(t.Name)
@@ -649,7 +650,16 @@ func genToPlain(a, b Schema) bool {
 			continue
 		}
 		for _, c := range t.Cols {
-			if bc := bt.col(c.Name); c.Gen != nil && bc != nil && bc.Gen == nil {
+			bc := bt.col(c.Name)
+			if bc == nil {
+				continue
+			}
+			if c.Gen != nil && bc.Gen == nil {
+				return true
+			}
+			// a column that comes back under its name with another type (drop-col + add-col, not only mod-col-type):
+			// the copy converts the stored values by the new affinity, which the engine model does not do
+			if c.Type != bc.Type {
 				return true
 			}
 		}
@@ -694,6 +704,16 @@ func runEngine(c *ctx) {
 		if a, b, rows, fill, d, ok := pg.notnullDefault([]int{0, 2, 3}[i%3]); ok && simpleDefaults(a) && simpleDefaults(b) {
 			c.engineCase(a, b, d, engineOpts{file: i%4 == 0, fk: i%2 == 0, withModel: true, rows: rows, fill: &fill})
 		}
+	}
+	// constraint / index names outside \w+ on every named object (gen.go oddName): inspect sees such checks and keys as anonymous
+	og := &G{r: c.r, odd: true}
+	no := 120
+	if c.thorough {
+		no = 2000
+	}
+	for i := 0; i < no; i++ {
+		a, b, d := og.pair()
+		c.engineCase(a, b, "odd-names:"+d, engineOpts{file: i%4 == 0, fk: i%2 == 0, withModel: true, viaAtlas: i%3 == 0})
 	}
 	for i := 0; i < n; i++ {
 		a, b, d := c.g.pair()
@@ -782,6 +802,22 @@ func runOracle(c *ctx) {
 			o.rows = append(o.rows, genRows(c.g, t)...)
 		}
 		c.engineCase(a, b, "border:"+kind+"+rows", o)
+	}
+	// constraint / index names outside \w+ on every named object, empty and populated, created by the harness' DDL or by Atlas
+	og := &G{r: c.r, odd: true}
+	no := 150
+	if c.thorough {
+		no = 4000
+	}
+	for i := 0; i < no; i++ {
+		a, b, d := og.pair()
+		o := engineOpts{file: i%3 == 0, fk: i%2 == 0, viaAtlas: i%4 == 1, inspected: i%5 == 2}
+		if i%3 == 1 && d != "unrelated" {
+			for _, t := range a.Tables {
+				o.rows = append(o.rows, genRows(og, t)...)
+			}
+		}
+		c.engineCase(a, b, "odd-names:"+d, o)
 	}
 	// populated: a nullable column with a DEFAULT becomes NOT NULL over NULLs, all four variants, any default (notnull.go)
 	nn := 60
